@@ -37,14 +37,18 @@ import (
 // own) and accepts address subscriptions.
 type idleChain struct{ ntfns chan interface{} }
 
-func (c *idleChain) Start() error                                 { return nil }
-func (c *idleChain) Stop()                                        {}
-func (c *idleChain) WaitForShutdown()                             {}
-func (c *idleChain) GetBestBlock() (*chainhash.Hash, int32, error) { return nil, 0, fmt.Errorf("idle chain") }
+func (c *idleChain) Start() error     { return nil }
+func (c *idleChain) Stop()            {}
+func (c *idleChain) WaitForShutdown() {}
+func (c *idleChain) GetBestBlock() (*chainhash.Hash, int32, error) {
+	return nil, 0, fmt.Errorf("idle chain")
+}
 func (c *idleChain) GetBlock(*chainhash.Hash) (*wire.MsgBlock, error) {
 	return nil, fmt.Errorf("idle chain")
 }
-func (c *idleChain) GetBlockHash(int64) (*chainhash.Hash, error) { return nil, fmt.Errorf("idle chain") }
+func (c *idleChain) GetBlockHash(int64) (*chainhash.Hash, error) {
+	return nil, fmt.Errorf("idle chain")
+}
 func (c *idleChain) GetBlockHeader(*chainhash.Hash) (*wire.BlockHeader, error) {
 	return nil, fmt.Errorf("idle chain")
 }
@@ -131,7 +135,7 @@ func TestC04WalletLevel(t *testing.T) {
 		loader := wallet.NewLoader(params, dir, true, 10*time.Second, 0)
 		w, err := loader.CreateNewWallet(append([]byte(nil), pubPass...), append([]byte(nil), privPass...), seed, time.Unix(1_600_000_000, 0))
 		if err != nil {
-			t.Fatalf("C04 VIOLATED: CreateNewWallet failed: %v, case:\n%s", err, c.Text())
+			t.Fatalf("INCONCLUSIVE: (functional failure, not a C04 matter) CreateNewWallet failed: %v, case:\n%s", err, c.Text())
 		}
 		defer func() { loader.UnloadWallet() }()
 
@@ -267,7 +271,7 @@ func TestC04WalletLevel(t *testing.T) {
 				err := w.Unlock(append([]byte(nil), privPass...), nil)
 				c.Logf("Unlock -> %v", err)
 				if err != nil {
-					t.Fatalf("C04 VIOLATED: Unlock with the current private passphrase failed: %v, case:\n%s", err, c.Text())
+					t.Fatalf("INCONCLUSIVE: (functional failure, not a C04 matter) Unlock with the current private passphrase failed: %v, case:\n%s", err, c.Text())
 				}
 				locked = false
 			case "lock":
@@ -287,11 +291,11 @@ func TestC04WalletLevel(t *testing.T) {
 				}
 				c.Logf("%s scope=%v acct=%d locked=%v -> %v, %v", op, s.scope, a.num, locked, addr, err)
 				if err != nil {
-					t.Fatalf("C04 VIOLATED: %s failed: %v, case:\n%s", op, err, c.Text())
+					t.Fatalf("INCONCLUSIVE: (functional failure, not a C04 matter) %s failed: %v, case:\n%s", op, err, c.Text())
 				}
 				_, want := oracleAddr(s, a, br, a.next[br])
 				if addr.EncodeAddress() != want.EncodeAddress() {
-					t.Fatalf("C04 VIOLATED: %s(scope %v, account %d) returned %s, the seed's child %d/%d is %s (the needle set would be wrong), case:\n%s", op, s.scope, a.num, addr,
+					t.Fatalf("INCONCLUSIVE: (functional failure, not a C04 matter) %s(scope %v, account %d) returned %s, the seed's child %d/%d is %s (the needle set would be wrong), case:\n%s", op, s.scope, a.num, addr,
 						br, a.next[br], want, c.Text())
 				}
 				a.next[br]++
@@ -302,15 +306,15 @@ func TestC04WalletLevel(t *testing.T) {
 				c.Logf("NextAccount scope=%v name=%q locked=%v -> %d, %v", s.scope, name, locked, num, err)
 				if locked {
 					if err == nil {
-						t.Fatalf("C04 VIOLATED: NextAccount succeeded on a locked wallet, case:\n%s", c.Text())
+						t.Fatalf("INCONCLUSIVE: (functional failure, not a C04 matter) NextAccount succeeded on a locked wallet, case:\n%s", c.Text())
 					}
 					break
 				}
 				if err != nil {
-					t.Fatalf("C04 VIOLATED: NextAccount on an unlocked wallet failed: %v, case:\n%s", err, c.Text())
+					t.Fatalf("INCONCLUSIVE: (functional failure, not a C04 matter) NextAccount on an unlocked wallet failed: %v, case:\n%s", err, c.Text())
 				}
 				if int(num) != len(s.accounts) {
-					t.Fatalf("C04 VIOLATED: NextAccount returned %d, expected %d, case:\n%s", num, len(s.accounts), c.Text())
+					t.Fatalf("INCONCLUSIVE: (functional failure, not a C04 matter) NextAccount returned %d, expected %d, case:\n%s", num, len(s.accounts), c.Text())
 				}
 				k, err := s.keys.AccountLater(num)
 				if err != nil {
@@ -331,12 +335,12 @@ func TestC04WalletLevel(t *testing.T) {
 				c.Logf("ImportPrivateKey scope=%v locked=%v -> %s, %v", s.scope, locked, addr, err)
 				if locked {
 					if err == nil {
-						t.Fatalf("C04 VIOLATED: ImportPrivateKey succeeded on a locked wallet, case:\n%s", c.Text())
+						t.Fatalf("INCONCLUSIVE: (functional failure, not a C04 matter) ImportPrivateKey succeeded on a locked wallet, case:\n%s", c.Text())
 					}
 					break
 				}
 				if err != nil {
-					t.Fatalf("C04 VIOLATED: ImportPrivateKey on an unlocked wallet failed: %v, case:\n%s", err, c.Text())
+					t.Fatalf("INCONCLUSIVE: (functional failure, not a C04 matter) ImportPrivateKey on an unlocked wallet failed: %v, case:\n%s", err, c.Text())
 				}
 				set.AddImportedKey("imported private key of "+addr, wif, addr)
 				n["import"]++
@@ -345,7 +349,7 @@ func TestC04WalletLevel(t *testing.T) {
 				err := w.ChangePrivatePassphrase(append([]byte(nil), privPass...), append([]byte(nil), np...))
 				c.Logf("ChangePrivatePassphrase new=%q locked=%v -> %v", np, locked, err)
 				if err != nil {
-					t.Fatalf("C04 VIOLATED: ChangePrivatePassphrase with the right old passphrase failed: %v, case:\n%s", err, c.Text())
+					t.Fatalf("INCONCLUSIVE: (functional failure, not a C04 matter) ChangePrivatePassphrase with the right old passphrase failed: %v, case:\n%s", err, c.Text())
 				}
 				privPass = np
 				n["passphrase"]++
@@ -354,7 +358,7 @@ func TestC04WalletLevel(t *testing.T) {
 				err := w.ChangePublicPassphrase(append([]byte(nil), pubPass...), append([]byte(nil), np...))
 				c.Logf("ChangePublicPassphrase new=%q -> %v", np, err)
 				if err != nil {
-					t.Fatalf("C04 VIOLATED: ChangePublicPassphrase with the right old passphrase failed: %v, case:\n%s", err, c.Text())
+					t.Fatalf("INCONCLUSIVE: (functional failure, not a C04 matter) ChangePublicPassphrase with the right old passphrase failed: %v, case:\n%s", err, c.Text())
 				}
 				pubPass = np
 				n["passphrase"]++
@@ -363,7 +367,7 @@ func TestC04WalletLevel(t *testing.T) {
 				err := w.ChangePassphrases(append([]byte(nil), pubPass...), append([]byte(nil), np1...), append([]byte(nil), privPass...), append([]byte(nil), np2...))
 				c.Logf("ChangePassphrases newPub=%q newPriv=%q locked=%v -> %v", np1, np2, locked, err)
 				if err != nil {
-					t.Fatalf("C04 VIOLATED: ChangePassphrases with the right old passphrases failed: %v, case:\n%s", err, c.Text())
+					t.Fatalf("INCONCLUSIVE: (functional failure, not a C04 matter) ChangePassphrases with the right old passphrases failed: %v, case:\n%s", err, c.Text())
 				}
 				pubPass, privPass = np1, np2
 				n["passphrase"]++
@@ -375,7 +379,7 @@ func TestC04WalletLevel(t *testing.T) {
 				w, err = loader.OpenExistingWallet(append([]byte(nil), pubPass...), false)
 				c.Logf("reopen -> %v", err)
 				if err != nil {
-					t.Fatalf("C04 VIOLATED: OpenExistingWallet with the current public passphrase failed: %v, case:\n%s", err, c.Text())
+					t.Fatalf("INCONCLUSIVE: (functional failure, not a C04 matter) OpenExistingWallet with the current public passphrase failed: %v, case:\n%s", err, c.Text())
 				}
 				w.SynchronizeRPC(&idleChain{ntfns: make(chan interface{})})
 				locked = true
